@@ -6,7 +6,7 @@ CLAIMS = {
  "C01": ("Decides that every function able to write the active-set encoding (compoActive/compoRequested/orthoRequested) preserves the well-formedness "
          "invariant, for every instantiation of the patterns in the witness zoo: who-may-write tables, exit resets / enter sets / exit-enter pairing on "
          "every path, all orthogonal siblings visited, INVALID-freedom and own-sub-state origin of every resolved prong (interprocedural origin analysis), "
-         "anonymous-head default for select, descent into nested regions. Does not decide which prong a particular float input selects (C12).",
+         "anonymous-head default for select, descent into nested regions (composite resolvers, orthogonal requests / reports, CS_ prong dispatch). Does not decide which prong a particular float input selects (C12).",
          "path rules + who-may-write + interprocedural value-origin analysis over clang AST facts (static analysis)"),
  "C02": ("Decides that the routing / resolution tables of the code agree with the rules of the statement, for every instantiation in the zoo: exhaustive "
          "kind dispatch on both dispatch mechanisms, per resolver the source of the stored prong (literal first / guarded resumable / select() / sub-state "
@@ -22,7 +22,7 @@ CLAIMS = {
  "C04": ("Decides the round protocol of R_::processTransitions / initialEnter on every structured path (apply, change test, pending:=requests, guards, "
          "approved: record+backup | vetoed: restore), that nothing is committed inside the loop, the guard order and the cancellation detection in the "
          "state wrappers, that a veto re-establishes every registry field a request may write (transitive may-write effects of applyRequest vs the veto "
-         "arm), backup/restore symmetry, and the substitution bound.",
+         "arm), backup/restore symmetry, the substitution bound, and that the guard walk reaches every pending change (forwarding shapes of C_/O_::deepForward{Entry,Exit}Guard; requestImmediate marks every orthogonal and composite ancestor of the destination).",
          "token-protocol path rule + transitive may-write effects + order rules over clang AST facts (static analysis)"),
  "C06": ("Decides that a task's kind, destination and payload reach the request updatePlan issues (task-field flow), the execution guards (loop stops at the "
          "first inactive origin, request only under the origin's success mark, Origin scope naming the head, removal and mark clearing afterwards), the "
@@ -61,7 +61,8 @@ CLAIMS = {
  "C11": ("Decides absence of dynamic allocation (expressions, callees, member types, includes), that every write growing a fixed array through a member "
          "counter is dominated by a capacity test in the function or at every call site, the one-past read of the bit-range views, that range views "
          "cover exactly ceil(width/8) units, that shift amounts that are constants / masked / folded template constants are in range (rotations called "
-         "with 0<k<W), that the memcpy/memset helpers are instantiated on trivially copyable operands of fitting size, plus the serialization bit budget "
+         "with 0<k<W), that the memcpy/memset helpers are instantiated on trivially copyable operands of fitting size, that composite-array subscripts "
+         "forkId-1 are dominated by a forkId>0 test in the general registry, plus the serialization bit budget "
          "and pool reset as the guards of the two indices not tested locally. Does not decide in-range-ness of arbitrary subscripts; shifts needing a "
          "relational loop invariant are listed as undecided.",
          "who-may-grow / dominance path rules + constant-range evaluation + type-trait queries over clang AST facts (static analysis)"),
@@ -69,7 +70,8 @@ CLAIMS = {
          "function-by-function comparison of symbolic event paths), that enabling a feature adds to the core functions only events owned by that feature "
          "(cross-configuration differencing of the symbolic event paths of every core function, with a frozen ownership table per feature), that the "
          "capacities containers are instantiated with equal the constants the machine publishes in every configuration, that published constants do "
-         "not depend on unrelated switches, that every switch owns a distinct bit of the feature tag, and payload~void agreement of the plan code. "
+         "not depend on unrelated switches, that every switch owns a distinct bit of the feature tag, that every Config option alias changes exactly its own "
+         "option (type-level witness), and payload~void agreement of the plan code. "
          "Behavioural equality as such is implied for programs inside the common subset and is not separately computed.",
          "cross-configuration differencing of symbolic event paths + preprocessor token comparison + type-level constant comparison (static analysis)"),
  "C16": ("Decides, in verbose and interface logging configurations, that each of the 34 state wrappers logs exactly once, before the callback, with "
@@ -105,14 +107,16 @@ CLAIMS = {
          "expression-shape / sibling agreement rules + interprocedural return-origin analysis over clang AST facts (static analysis)"),
  "C13": ("Decides that both RegistryT specialisations answer the six queries with the same normalised comparison, that the comparisons are the ones the "
          "statement prescribes over the fields the commit / resume code writes (same index convention), the INVALID sentinel exclusion of the pending "
-         "queries, that all control facades forward unchanged, and that the resume path hands the remembered prong down unchanged. Does not decide "
+         "queries, that all control facades forward unchanged, that the resume path hands the remembered prong down unchanged, and that a region stores its "
+         "active prong before its first enter callback runs. Does not decide "
          "exactness of the pending queries for nested states whose ancestor region is the one switching.",
          "normal-form (atom set) sibling comparison + field tables over clang AST facts (static analysis)"),
  "C05": ("Decides the structural clauses of C05 for every instantiation of the reaction/update patterns in the witness zoo: phase order in "
          "R_::update/react/query, head vs sub-state order in C_/O_ and the 16 reaction wrappers, Initial-before-Remaining in OS_, consumption gating "
-         "between any two consecutive deliveries (call-graph fixpoint mayDeliver/entryGated + path rule), active-prong origin, injected-base order. "
+         "between any two consecutive deliveries (call-graph fixpoint mayDeliver/entryGated + path rule), active-prong origin, injected-base order, and that the "
+         "configured reaction order reaches the machine through every Config option alias (type-level witness). "
          "Does not decide the relative order of injected bases vs own handler for query/exitGuard (reported).",
-         "path/order rules + call-graph fixpoint over clang AST facts (static analysis)"),
+         "path/order rules + call-graph fixpoint over clang AST facts + static_assert witness decided by clang -fsyntax-only (static analysis)"),
 }
 NOTE = ("trusted: clang 14 front end, the hfx extractor (opaque constructs fail the run), the rule tables of DESIGN.md section 6; the quantifier over machine "
         "structures is discharged by coverage of pattern x template-argument-kind in the witness zoo (DESIGN.md section 4)")
